@@ -43,8 +43,8 @@ THEOREMS = [
     "C05.map_derivations", "C05.map_items", "C05.map_string_keys", "C05.dict_key_order",
     "C05.dict_last_value", "C05.seq_items", "C05.empty_and_absent", "C05.final_delim", "C05.final_delim_map",
     "C05.nesting", "C05.nesting_every_derivation", "C05.end_to_end_json_partial",
-    "C05.lines_cut_at_newline_only", "C05.squash_around_items", "C05.no_exceptions", "C05.any_token_except",
-    "C05.squash_data",
+    "C05.lines_cut_at_newline_only", "C05.parse_has_no_memory", "C05.squash_around_items",
+    "C05.no_exceptions", "C05.any_token_except", "C05.squash_data",
 ]
 
 RULE = ("one case = one grammar (real LLParser rebuilt from a JSON spec) + 8-14 rendered values, or 20 template "
@@ -138,11 +138,14 @@ def _ll():
     return llparser
 
 
-TK = (r"(?P<SPACE>\s+)|(?P<COMMENT_EOL>//.*)|(?P<WORD>[a-zA-Z_][a-zA-Z0-9_]*)|(?P<NUMBER>[0-9]+)|(?P<COMMA>,)"
+TK = (r"(?P<SPACE>\s+)|(?P<COMMENT_EOL>//.*)|(?P<COMMENT_ML>/\*)|(?P<WORD>[a-zA-Z_][a-zA-Z0-9_]*)|(?P<NUMBER>[0-9]+)|(?P<COMMA>,)"
       r"|(?P<BR_OPEN>\[)|(?P<BR_CLOSE>\])|(?P<BR_OPEN_CURL>\{)|(?P<BR_CLOSE_CURL>\})|(?P<COLON>:)|(?P<SEMI>;)"
       r"|(?P<LT><)|(?P<GT>>)|(?P<PO>\()|(?P<PC>\))|(?P<BAR>\|)|(?P<AT>@)|(?P<HASH>\#)|(?P<EQ>=)")
 SYN = {'COMMA': ',', 'BR_OPEN': '[', 'BR_CLOSE': ']', 'BR_OPEN_CURL': '{', 'BR_CLOSE_CURL': '}', 'COLON': ':',
-       'SEMI': ';', 'LT': '<', 'GT': '>', 'PO': '(', 'PC': ')', 'BAR': '|', 'AT': '@', 'HASH': '#', 'EQ': '=', 'COMMENT_EOL': 'COMMENT'}
+       'SEMI': ';', 'LT': '<', 'GT': '>', 'PO': '(', 'PC': ')', 'BAR': '|', 'AT': '@', 'HASH': '#', 'EQ': '=', 'COMMENT_ML': 'COMMENT', 'COMMENT_EOL': 'COMMENT'}
+
+
+SPANS = {'COMMENT_ML': r"(?P<END_COMMENT>(\*[^/]|[^*])*)\*/"}
 
 
 def _mk_template(kind, a):
@@ -161,7 +164,7 @@ def _mk_template(kind, a):
 
 def all_terminals():
     """names of all tokens of the test tokenizer (after synonyms), sorted"""
-    return sorted(_ll()._Tokenizer(TK, synonyms=SYN).get_all_token_names())
+    return sorted(_ll()._Tokenizer(TK, synonyms=SYN, span_matchers=SPANS).get_all_token_names())
 
 
 @functools.lru_cache(maxsize=256)
@@ -176,7 +179,7 @@ def _parser_cached(spec_json):
         else:
             prods[sym] = _mk_template(kind, data)
     keep = set(spec["keep"]) if spec.get("keep") is not None else None
-    return ll.LLParser(TK, synonyms=SYN, productions=prods, keep_symbols=keep,
+    return ll.LLParser(TK, synonyms=SYN, span_matchers=SPANS, productions=prods, keep_symbols=keep,
                        smart_factorization=spec.get("smart", True), start_symbol_name=spec.get("start", "E"))
 
 
@@ -386,6 +389,12 @@ def impl(case):
                 out.append(real_lines(parser_of(spec), dec_str(toks[1])))
             elif op == "tp":
                 tj += 1
+                while case["items"][tj].get("tp") is None:
+                    try:
+                        parser_of(spec).parse(all_texts[tj])      # the failing call of the sequence
+                    except Exception:
+                        pass
+                    tj += 1
                 out.append("ok " + show_val(parser_of(spec).parse(all_texts[tj], do_cleanup=False)))
             elif op == "tc":
                 out.append("ok " + show_val(parser_of(spec).parse(all_texts[tj])))
@@ -542,13 +551,19 @@ def oracle(case, replies):
         exp = it["exp"]
         try:
             root = parser.parse(parse_input(it))
+        except ll.LexicalError:
+            if exp[0] in ("lexerr", "any"):
+                continue
+            return "exception: %r raises LexicalError" % (it["text"],)
         except ll.ParsingError:
-            if exp[0] == "err":
+            if exp[0] in ("err", "any"):
                 continue
             return "rejected: %r is not parsed although it denotes %s" % (it["text"], _short(exp[1]))
         except Exception as e:
             return "exception: %r raises %s" % (it["text"], type(e).__name__)
-        if exp[0] == "err":
+        if exp[0] == "any":
+            continue
+        if exp[0] in ("err", "lexerr"):
             return "accepted: %r is parsed (%s) although the grammar cannot denote it" % (it["text"], _short(root.value))
         m = match(exp[1], root, parser)
         if m:
@@ -577,6 +592,8 @@ def ws(rng, comments=True):
         return rng.choice(ODD_BLANKS) + rng.choice(["", " ", "\n"])
     if comments and r < 0.14:
         return rng.choice(["", " "]) + comment(rng) + rng.choice(["", " "])
+    if comments and r < 0.20:
+        return rng.choice(["/**/", "/* c */", " /* a, [\n b ] * / x*/ ", "/*\n\n*/", "/* // */"])
     if comments:
         return rng.choice(["", "", " ", "  ", "\n", "\n  ", " // cmt\n", "\n\n", "\t", " //\n "])
     return rng.choice(["", "", " ", "  ", "\n ", "\t"])
@@ -1351,11 +1368,230 @@ def f4_cases(rng, tier):
                     yield cs
 
 
+# ---- family 5: a nullable container at the very end of the text, two or more levels below the start symbol
+def f5_cases(rng, tier):
+    quick = tier == "quick"
+    kinds = ["opt-list", "nobr-list", "nobr-list-nodelim", "nobr-map", "opt-map", "seq"]
+    for kind in kinds:
+        for depth in (1, 2, 3):
+            for _ in range(3 if quick else 30):
+                smart = rng.random() < 0.5
+                args = {"opt-list": ["ARGS", "list", ["[", "WORD", ",", "]", None, True]],
+                        "nobr-list": ["ARGS", "list", [None, "WORD", ",", None, None, None]],
+                        "nobr-list-nodelim": ["ARGS", "list", [None, "NUMBER", None, None, None, None]],
+                        "nobr-map": ["ARGS", "map", [None, "WORD", ":", "WORD", ",", None, None, False]],
+                        "opt-map": ["ARGS", "map", ["{", "WORD", ":", "WORD", ",", "}", True, None]],
+                        "seq": ["ARGS", "seq", ["NUMBER", "LST"]]}[kind]
+                prods = [["E", "plain", [["S1"]]]]
+                for d in range(1, depth + 1):
+                    prods.append(["S%d" % d, "plain", [["WORD", "S%d" % (d + 1) if d < depth else "ARGS"]]])
+                prods.append(args)
+                if kind == "seq":
+                    prods.append(["LST", "list", ["[", "WORD", ",", "]", None, None]])
+                spec = {"prods": prods, "keep": None, "smart": smart, "start": "E"}
+                items = []
+                for _ in range(6):
+                    n = rng.choice([0, 0, 1, 2, 3])
+                    heads = [rng.choice(WORDS) for _ in range(depth)]
+                    text = ws(rng) + sep(rng).join(heads)
+                    if kind in ("opt-list", "nobr-list"):
+                        vals = [rng.choice(WORDS) for _ in range(n)]
+                        absent = kind == "opt-list" and rng.random() < 0.4
+                        body = (ws(rng) + "," + ws(rng)).join(vals)
+                        if kind == "opt-list":
+                            text += "" if absent else ws(rng) + "[" + ws(rng) + body + ws(rng) + "]"
+                            val = None if absent else vals
+                        else:
+                            text += (sep(rng) + body) if vals else ""
+                            val = vals
+                    elif kind == "nobr-list-nodelim":
+                        vals = [str(rng.randrange(50)) for _ in range(n)]
+                        text += "".join(sep(rng) + v for v in vals)
+                        val = vals
+                    elif kind in ("nobr-map", "opt-map"):
+                        pairs = [[rng.choice(["k", "kk", "z"]), rng.choice(WORDS)] for _ in range(n)]
+                        absent = kind == "opt-map" and rng.random() < 0.4
+                        body = (ws(rng) + "," + ws(rng)).join(k + ws(rng) + ":" + ws(rng) + v for k, v in pairs)
+                        out = []
+                        for k, v in pairs:
+                            for ent in out:
+                                if ent[0] == k:
+                                    ent[1] = v
+                                    break
+                            else:
+                                out.append([k, v])
+                        if kind == "opt-map":
+                            text += "" if absent else ws(rng) + "{" + ws(rng) + body + ws(rng) + "}"
+                            val = None if absent else {"map": out}
+                        else:
+                            if pairs and pairs[0][0] in WORDS:
+                                pass
+                            text += (sep(rng) + body) if pairs else ""
+                            val = {"map": out}
+                    else:
+                        els, parts = [], []
+                        for _ in range(n):
+                            if rng.random() < 0.5:
+                                v = str(rng.randrange(50))
+                                els.append({"el": "NUMBER", "v": v})
+                                parts.append(v)
+                            else:
+                                ws_ = [rng.choice(WORDS) for _ in range(rng.choice([0, 1, 2]))]
+                                els.append({"el": "LST", "v": ws_})
+                                parts.append("[" + ws(rng) + ("," + ws(rng)).join(ws_) + "]")
+                        text += "".join(sep(rng) + p_ for p_ in parts)
+                        val = {"seq": els}
+                    text += ws(rng)
+                    exp = val
+                    for h in reversed(heads):
+                        exp = {"te": "S", "ch": [h, exp]}
+                    items.append({"text": text, "exp": ["ok", exp], "size": [n, 1],
+                                  "tags": ["f5-trailing-%s" % kind, "f5-empty-or-absent" if not n else "f5-nonempty"]})
+                c = make_case(spec, items, {"kind": "f5", "what": kind, "depth": depth})
+                if c is not None:
+                    yield c
+
+
+# ---- family 6: item / value / element symbols whose alternatives share their first token (real roll-back inside containers)
+def f6_cases(rng, tier):
+    quick = tier == "quick"
+
+    def gen_item(d):
+        r = rng.random()
+        if r < 0.4 or d > 3:
+            return ["W", rng.choice(WORDS)]
+        if r < 0.75:
+            return ["Q", rng.choice(WORDS), gen_item(d + 1)]
+        return ["L", [gen_item(d + 1) for _ in range(rng.choice([0, 1, 2, 3]))], rng.random() < 0.3]
+
+    def render_item(it):
+        if it[0] == "W":
+            return it[1]
+        if it[0] == "Q":
+            return it[1] + ws(rng) + "=" + ws(rng) + render_item(it[2])
+        s_ = "[" + ws(rng) + ("," + ws(rng)).join(render_item(x) + ws(rng) for x in it[1])
+        return s_ + ("," + ws(rng) if it[2] and it[1] else "") + "]"
+
+    def exp_item(it):
+        if it[0] == "W":
+            return it[1]
+        if it[0] == "Q":
+            return {"te": "PAIR", "ch": [it[1], "=", exp_item(it[2])]}
+        return [exp_item(x) for x in it[1]]
+
+    for order in (0, 1):
+        for _ in range(12 if quick else 150):
+            smart = rng.random() < 0.5
+            alts = [["PAIR"], ["WORD"], ["LIST"]] if order == 0 else [["LIST"], ["PAIR"], ["WORD"]]
+            spec = {"prods": [["E", "plain", [["LIST", ";"]]], ["LIST", "list", ["[", "ITEM", ",", "]", None, None]],
+                              ["ITEM", "plain", alts], ["PAIR", "plain", [["WORD", "=", "ITEM"]]]],
+                    "keep": rng.choice([None, ["ITEM"], ["PAIR"]]), "smart": smart, "start": "E"}
+            items = []
+            for _ in range(8):
+                node = ["L", [gen_item(0) for _ in range(rng.choice([0, 1, 2, 3, 5]))], rng.random() < 0.3]
+                items.append({"text": ws(rng) + render_item(node) + ws(rng) + ";", "size": _size(["L", node[1], False]),
+                              "exp": ["ok", {"te": "E", "ch": [exp_item(node), ";"]}], "tags": ["f6-pair-or-word-item"]})
+            c = make_case(spec, items, {"kind": "f6a"})
+            if c is not None:
+                yield c
+
+    def gen_val(d):
+        r = rng.random()
+        if r < 0.4 or d > 3:
+            return ["W", rng.choice(WORDS)]
+        if r < 0.7:
+            return ["S", [gen_val(d + 1) for _ in range(rng.choice([0, 1, 2, 3]))]]
+        return ["M", [[rng.choice(["k", "kk", "z"]), gen_val(d + 1)] for _ in range(rng.choice([0, 1, 2, 3]))]]
+
+    def render_val(v):
+        if v[0] == "W":
+            return v[1]
+        if v[0] == "S":
+            return "{" + ws(rng) + ("," + ws(rng)).join(render_val(x) + ws(rng) for x in v[1]) + "}"
+        return "{" + ws(rng) + ("," + ws(rng)).join(k + ws(rng) + ":" + ws(rng) + render_val(x) + ws(rng) for k, x in v[1]) + "}"
+
+    def exp_val(v, set_first):
+        if v[0] == "W":
+            return v[1]
+        if v[0] == "S" or (v[0] == "M" and not v[1] and set_first):
+            return [exp_val(x, set_first) for x in v[1]] if v[0] == "S" else []
+        if v[0] == "S":
+            return []
+        out = []
+        for k, x in v[1]:
+            e = exp_val(x, set_first)
+            for ent in out:
+                if ent[0] == k:
+                    ent[1] = e
+                    break
+            else:
+                out.append([k, e])
+        return {"map": out}
+
+    for set_first in (True, False):
+        for _ in range(12 if quick else 150):
+            smart = rng.random() < 0.5
+            alts = [["WORD"], ["SET"], ["MAP"]] if set_first else [["WORD"], ["MAP"], ["SET"]]
+            spec = {"prods": [["E", "plain", [["VALUE", ";"]]], ["VALUE", "plain", alts],
+                              ["SET", "list", ["{", "VALUE", ",", "}", None, None]],
+                              ["MAP", "map", ["{", "WORD", ":", "VALUE", ",", "}", None, None]]],
+                    "keep": None, "smart": smart, "start": "E"}
+            items = []
+            for _ in range(8):
+                v = gen_val(0)
+
+                def fix(v):     # "{}" is read by the alternative listed first
+                    if v[0] == "S" and not v[1] and not set_first:
+                        return ["M", []]
+                    if v[0] in ("S",):
+                        return ["S", [fix(x) for x in v[1]]]
+                    if v[0] == "M":
+                        return ["M", [[k, fix(x)] for k, x in v[1]]]
+                    return v
+                v = fix(v)
+                items.append({"text": ws(rng) + render_val(v) + ws(rng) + ";", "size": [1, 2],
+                              "exp": ["ok", {"te": "E", "ch": [exp_val(v, set_first), ";"]}],
+                              "tags": ["f6-set-or-map-same-bracket"]})
+            c = make_case(spec, items, {"kind": "f6b", "set_first": set_first})
+            if c is not None:
+                yield c
+    for _ in range(12 if quick else 150):
+        smart = rng.random() < 0.5
+        spec = {"prods": [["E", "plain", [["SEQ", ";"]]], ["SEQ", "seq", ["ASSIGN", "WORD", "NUM"]],
+                          ["ASSIGN", "plain", [["WORD", "=", "RV"]]], ["RV", "plain", [["WORD"], ["NUMBER"]]],
+                          ["NUM", "plain", [["NUMBER"]]]],
+                "keep": None, "smart": smart, "start": "E"}
+        items = []
+        for _ in range(8):
+            els, parts = [], []
+            for _ in range(rng.choice([0, 1, 2, 3, 5])):
+                r = rng.random()
+                if r < 0.4:
+                    w = rng.choice(WORDS)
+                    els.append({"el": "WORD", "v": w})
+                    parts.append(w)
+                elif r < 0.6:
+                    n = str(rng.randrange(50))
+                    els.append({"el": "NUM", "v": n})
+                    parts.append(n)
+                else:
+                    k, v = rng.choice(WORDS), rng.choice(WORDS + ["5"])
+                    els.append({"el": "ASSIGN", "v": {"te": "ASSIGN", "ch": [k, "=", v]}})
+                    parts.append(k + ws(rng) + "=" + ws(rng) + v)
+            items.append({"text": ws(rng) + sep(rng).join(parts) + ws(rng) + ";", "size": [len(els), 1],
+                          "exp": ["ok", {"te": "E", "ch": [{"seq": els}, ";"]}], "tags": ["f6-assign-or-word-element"]})
+        c = make_case(spec, items, {"kind": "f6c"})
+        if c is not None:
+            yield c
+
+
 # ------------------------------------------------------------------ building cases
 def build_lines(case):
     lines = [case["g"], case["G"]]
     for it in case["items"]:
-        if it.get("mode", "str") == "str":
+        if it.get("tp") is None:
+            continue           # a call that fails in the tokenizer: made by the adapter / oracle, no model line
+        if it.get("mode", "str") == "str" and "/*" not in it["text"]:
             lines.append(ln_line(it["text"]))
         lines.append(it["tp"])
         lines.append("tc")
@@ -1370,17 +1606,34 @@ def lexemes(it):
     A str is cut at '\\n' only and every line is rstripped; an iterable of lines is taken as it is."""
     import re
     m = re.compile(TK, re.VERBOSE)
+    spans = {k: re.compile(v, re.VERBOSE) for k, v in SPANS.items()}
     inp = parse_input(it)
     lines = [l.rstrip() for l in inp.split("\n")] if isinstance(inp, str) else inp
     out = []
+    span, parts = None, None
     for line in lines:
         col = 0
         while col < len(line):
+            if span is not None:
+                mm = spans[span].match(line, col)
+                if mm is None:
+                    parts.append(line[col:])
+                    col = len(line)
+                else:
+                    parts.append(mm.group(mm.lastgroup))
+                    out.append((span, "\n".join(parts)))
+                    span, col = None, mm.end()
+                continue
             mm = m.match(line, col)
             if mm is None:
-                raise ValueError("lexical error in generated text")
-            out.append((mm.lastgroup, mm.group()))
+                raise ValueError("lexical error")
+            if mm.lastgroup in spans:
+                span, parts = mm.lastgroup, []
+            else:
+                out.append((mm.lastgroup, mm.group()))
             col = mm.end()
+    if span is not None:
+        raise ValueError("span is never closed")
     return out
 
 
@@ -1423,9 +1676,46 @@ def tp_line(it):
     return ("tp " + " ".join(enc_str(g) + " " + enc_str(v) for g, v in lx)).rstrip()
 
 
+def reorder(spec, meta):
+    """the same grammar with the keys of the `productions` dict in another order (as written / bottom-up / shuffled)"""
+    import random
+    import zlib
+    h = zlib.crc32(json.dumps(spec, sort_keys=True).encode())
+    how = ["as-written", "bottom-up", "shuffled"][h % 3]
+    prods = list(spec["prods"])
+    if how == "bottom-up":
+        prods.reverse()
+    elif how == "shuffled":
+        random.Random(h).shuffle(prods)
+    meta["key_order"] = how
+    return dict(spec, prods=prods)
+
+
+BAD_CALLS = [("[a, /* never closed\n b] 7", "lexerr"), ("/*", "lexerr"), ("a $ b", "lexerr"), ("{ k : ? }", "lexerr"),
+             ("] [ , :", "err"), ("", "any")]
+
+
+def add_failing_calls(items, spec):
+    """call sequences on one parser object: calls that fail (unclosed comment, foreign character, parse error) before
+    valid texts -- the result of a call depends on its text only"""
+    import zlib
+    h = zlib.crc32(json.dumps([it["text"] for it in items]).encode())
+    if h % 3 != 0 or not items:
+        return items
+    out = list(items)
+    for k in range(1 + h % 2):
+        text, exp = BAD_CALLS[(h // 7 + k) % len(BAD_CALLS)]
+        pos = (h // 11 + 3 * k) % (len(out) + 1)
+        out.insert(pos, {"text": text, "exp": [exp], "tags": ["failing-call:" + exp], "size": [0, 0], "mode": "str"})
+    return out
+
+
 def make_case(spec, items, meta):
     """adds the protocol lines: needs the raw trees, i.e. runs the real parser without clean-up"""
     ll = _ll()
+    meta = dict(meta)
+    spec = reorder(spec, meta)
+    items = add_failing_calls(items, spec)
     try:
         p = parser_of(spec)
     except (ll.GrammarError, AssertionError) as e:
@@ -1441,7 +1731,10 @@ def make_case(spec, items, meta):
         if any(c in it["text"] for c in ODD_BLANKS if c != "\r\n"):
             it["tags"] = it.get("tags", []) + ["odd-blank-character"]
         it["tags"] = it.get("tags", []) + ["input:" + it["mode"]]
-        it["tp"] = tp_line(it)
+        try:
+            it["tp"] = tp_line(it)
+        except ValueError:
+            it["tp"] = None        # the tokenizer itself rejects the text (LexicalError): nothing to ask the model
         try:
             raw = p.parse(parse_input(it), do_cleanup=False)
             it["cl"] = "cl " + show_val(raw)
@@ -1517,7 +1810,7 @@ def gen_cases(rng, tier):
     yield from tpl_cases(rng, tier)
     # family 1
     keeps = [None, ["ITEM"], ["WORD"], ["LIST"], ["ITEM", "LIST", "WORD"]]
-    rounds = 6 if quick else 60
+    rounds = 6 if quick else 45
     for cfg in list_configs():
         for smart in (True, False):
             for r in range(rounds):
@@ -1534,7 +1827,7 @@ def gen_cases(rng, tier):
                 if c is not None:
                     yield c
     # family 2
-    for cfg, keep in f2_configs(rng, 600 if quick else 6000):
+    for cfg, keep in f2_configs(rng, 600 if quick else 4500):
         spec = f2_spec(cfg, keep)
         items = f2_items(rng, cfg, 8 if quick else 12, maxd=4 if quick else 6)
         c = make_case(spec, items, {"kind": "f2", "cfg": cfg, "keep": keep})
@@ -1542,6 +1835,8 @@ def gen_cases(rng, tier):
             yield c
     yield from f3_cases(rng, tier)
     yield from f4_cases(rng, tier)
+    yield from f5_cases(rng, tier)
+    yield from f6_cases(rng, tier)
 
 
 def search_cases(rng, tier):
@@ -1591,7 +1886,10 @@ def shrink(case):
             if simple == it["text"] and it.get("mode") == "str":
                 continue
             it2 = dict(it, text=simple, mode="str")
-            it2["tp"] = tp_line(it2)
+            try:
+                it2["tp"] = tp_line(it2)
+            except ValueError:
+                it2["tp"] = None
             try:
                 raw = parser_of(case["spec"]).parse(simple, do_cleanup=False)
                 it2["cl"] = "cl " + show_val(raw)
@@ -1610,6 +1908,8 @@ def nontrivial(case, replies):
 def tags(case, replies):
     meta = case.get("meta", {})
     yield "kind:" + str(meta.get("kind"))
+    if meta.get("key_order"):
+        yield "key-order:" + meta["key_order"]
     if meta.get("kind") == "f1":
         br, dl, nullable, afd, opt = meta["cfg"]
         yield "f1:br=%d,dl=%d,nullable=%d,afd=%s,opt=%s" % (br, dl, nullable, afd, opt)
@@ -1675,7 +1975,12 @@ LEVEL_NOTE = (
     "non-terminal delimiters, composite keys, list items with AnyTokenExcept at every position, coinciding symbols (key = value "
     "= assign, open = close, delimiter = bracket, word brackets), random blanks, newlines and comments -- including form feed, "
     "vertical tab, lone \\r, \\x1c-\\x1e, \\x85, U+2028/2029, NBSP inside blank runs and inside comment bodies that look like "
-    "source text -- handed to parse() as a str, as a list of lines and as a list of lines keeping their newline.")
+    "source text, multi-line /* */ comments (span_matchers) -- handed to parse() as a str, as a list of lines and as a list of "
+    "lines keeping their newline; the keys of the productions dict as written / bottom-up / shuffled; nullable containers "
+    "(optional, bracket-less, sequences) at the very end of the text 1-3 levels below the start symbol; item / value / element "
+    "symbols whose alternatives share the first token (PAIR | WORD, SET | MAP on '{', ASSIGN | WORD) so that roll-back reaches "
+    "below the top frame; call sequences on one parser object with failing calls (unclosed comment, foreign character, parse "
+    "error, empty text) before valid texts.")
 TECHNIQUE = ("Lean 4 theorems over an executable structural-recursive model of the templates and the cleanuper (derivation "
              "shapes as inductive predicates, case analysis over all option fields) + translator for generated names + "
              "composition with the LL parser model (constructor + parse loop; a local 'predicted by ordered choice' lemma for "
